@@ -13,6 +13,12 @@ checks = {
  "C01": (MC, "histbfs", "explicit-state BFS over event histories on the real implementation with a reference-ledger oracle",
    "Every history of chain events (12 block templates, reorgs of depth<=k with 4 branch patterns) and notification deliveries up to the stated depth is executed on the real follower code over a real chain database; in every reached state the queue is drained and all ledger queries are compared with a reference ledger and a consensus-library maturity oracle. Exhaustive within the bounds reported in the evidence.",
    "§5 C01"),
+ "C02": (MC, "reqenum", "bounded-exhaustive request enumeration over UTXO shapes from real chain histories with a clause-by-clause oracle",
+   "For 9 wallet UTXO shapes reached through real chain histories, the full product of automatic-selection requests, two-call sequences and explicit-input requests is executed on the real builder; every answer is checked clause by clause against the reference ledger (ownership, no duplicates, eligibility, outputs, change address, fee = inputs - outputs, relay minimum for the signed size, success/failure).",
+   "§5 C02"),
+ "C03": (MC, "reqenum", "bounded-exhaustive (transaction x sighash flag x passphrase family) enumeration with an independent script-engine oracle",
+   "For the same shapes, wallet-built transactions (1..n inputs, payload/lock-time variants, staking/binding withdrawals) x 6 sighash flags are signed with the right and 7 wrong passphrases; the signed bytes must equal the input except for witnesses, every input must pass an independent consensus script-engine run, and wrong passphrases must return nothing and leave no witness.",
+   "§5 C03"),
  "C04": (MC, "histbfs", "explicit-state BFS over create/address/sign/export/import/restart/passphrase-change sequences across instances with an independent key-derivation oracle",
    "Every sequence of wallet-identity operations up to the stated depth across up to three instances runs on the real keystore; ids, every address index, NewAddress results and signatures are compared with an independent BIP-39/BIP-32/script derivation and across instances.",
    "§5 C04"),
@@ -75,6 +81,8 @@ m = {
    "kind_free_text": "db seam around mwdb.DB (call counting, error injection, stop-the-world before commit k) + enumeration of every crash/fault point of every base history"},
   {"name": "apienum", "path": "harness/models/c19", "serves_properties": ["C19"],
    "kind_free_text": "reflection-driven request enumeration over the pb request types, executed per (state, method) by the histbfs parent"},
+  {"name": "reqenum", "path": "harness/models/c02", "serves_properties": ["C02", "C03"],
+   "kind_free_text": "request-product enumeration per (UTXO shape, family) with reference-ledger oracle, executed by the histbfs parent"},
   {"name": "dbmodel", "path": "harness/models/c11", "serves_properties": ["C11"],
    "kind_free_text": "reference nested-map model of the wallet database + full read-back oracle, explored by the histbfs parent"},
   {"name": "enum", "path": "harness/enum", "serves_properties": [k for k, v in checks.items() if v[1] == "enum"],
